@@ -9,6 +9,7 @@ import sys
 HERE = os.path.dirname(os.path.abspath(__file__))
 sys.path.insert(0, os.path.dirname(HERE))
 os.environ['SA_NO_RENAME'] = '1'
+os.environ['SA_NO_CANON'] = '1'
 from sa.core import Repo, local_binding_order  # noqa: E402
 
 repo = Repo(os.environ.get('SA_REPO', '/repo'))
@@ -20,3 +21,23 @@ for q, fn in repo.all_funcs():
 with open(os.path.join(HERE, 'refnames.json'), 'w') as f:
     json.dump(out, f, indent=0, sort_keys=True)
 print('refnames.json: %d functions' % len(out))
+
+# reference shapes for sa/canon.py
+import ast  # noqa: E402
+from sa.canon import shapes_of  # noqa: E402
+shapes = {}
+nonscalar = []
+for q, fn in repo.all_funcs():
+    sh = shapes_of(fn)
+    shapes[q] = sh
+    for n in ast.walk(fn):
+        if isinstance(n, ast.AugAssign) and isinstance(n.value, (ast.List, ast.ListComp, ast.Dict, ast.Set, ast.Tuple)):
+            nonscalar.append('%s: %s' % (q, ast.unparse(n)))
+with open(os.path.join(HERE, 'refshapes.json'), 'w') as f:
+    json.dump(shapes, f, indent=0, sort_keys=True)
+print('refshapes.json: %d functions' % len(shapes))
+if nonscalar:
+    print('WARNING: augmented assignments on containers (step S5 of sa/canon.py assumes none):')
+    for x in nonscalar:
+        print('   ' + x)
+    sys.exit(1)
